@@ -45,7 +45,9 @@ fn case_coq(p: &Problem, o: &Outcome) -> String {
     format!("(run_case {} {} {} {} {})", p.coq(), p.settings.coq(), p.settings.coq_f(), out, infof)
 }
 
-fn emit(sink: &mut CaseSink, p: &Problem, o: &Outcome, stats: &mut BTreeMap<String, usize>) {
+fn emit(sink: &mut CaseSink, p: &Problem, o: &Outcome, stats: &mut BTreeMap<String, usize>) { emit_x(sink, p, o, stats, None) }
+/// `upd` = (base problem, update) when `o` is the outcome of a re-solve after in-place updates; `p` is then the FINAL data
+fn emit_x(sink: &mut CaseSink, p: &Problem, o: &Outcome, stats: &mut BTreeMap<String, usize>, upd: Option<(&Problem, &DataUpdate)>) {
     let kinds: Vec<&str> = { let mut k: Vec<&str> = p.cones.iter().map(|c| c.kind()).collect(); k.sort(); k.dedup(); k };
     *stats.entry(format!("run:{}", o.run)).or_insert(0) += 1;
     if o.run != "ok" {
@@ -73,7 +75,13 @@ fn emit(sink: &mut CaseSink, p: &Problem, o: &Outcome, stats: &mut BTreeMap<Stri
     if o.status == "Solved" { tags.push("C01"); }
     if o.status == "PrimalInfeasible" || o.status == "DualInfeasible" { tags.push("C02"); }
     let size = p.n().max(p.m());
-    let input = json!({"problem": p.json(), "outcome": o.json(), "status": o.status, "class": p.class, "label": p.label,
+    if let Some((_, u)) = upd {
+        *stats.entry(format!("update:{}", u.kinds())).or_insert(0) += 1;
+        *stats.entry(format!("update_status:{}", o.status)).or_insert(0) += 1;
+        if (o.c - 1.0).abs() > 1e-3 { *stats.entry("update:c_not_1".into()).or_insert(0) += 1; }
+    }
+    let updj = match upd { Some((b, u)) => json!({"base": b.json(), "update": u.json()}), None => Value::Null };
+    let input = json!({"problem": p.json(), "resolve_after_update": updj, "outcome": o.json(), "status": o.status, "class": p.class, "label": p.label,
                        "n": p.n(), "m": p.m(), "size": size, "kinds": kinds,
                        "direct": {"lengths_ok": n_ok, "keep_agree": keep_agree, "normalised": norm_ok,
                                    "iterations_agree": o.iterations == o.info_iterations, "status_agree": o.status == o.info_status}});
@@ -172,6 +180,15 @@ fn main() {
         for it in items.iter() {
             let pj = if it.get("input").map(|x| !x.is_null()).unwrap_or(false) { &it["input"]["problem"] } else if it.get("problem").is_some() { &it["problem"] } else { it };
             if pj.get("A").is_none() { continue; }
+            let ru = if it.get("input").is_some() { &it["input"]["resolve_after_update"] } else { &it["resolve_after_update"] };
+            if ru.is_object() {
+                let base = Problem::from_json(&ru["base"]);
+                let u = DataUpdate::from_json(&ru["update"]);
+                let fin = apply_update(&base, &u);
+                let o = run_update(&base, &u, 60.0);
+                emit_x(&mut sink, &fin, &o, &mut stats, Some((&base, &u)));
+                continue;
+            }
             let p = Problem::from_json(pj);
             let o = run(&p, 60.0);
             emit(&mut sink, &p, &o, &mut stats);
@@ -199,6 +216,14 @@ fn main() {
             let p = stream(&mut rng, idx, max_size);
             let o = run(&p, 30.0);
             emit(&mut sink, &p, &o, &mut stats);
+        }
+        // in-place data updates + re-solve, judged against the data after the update
+        let mut rng3 = Rng::new(seed ^ 0xda7a);
+        for idx in 0..(if thorough { 360 } else { 60 }) {
+            let (base, u) = gen_update_case(&mut rng3, idx, max_size);
+            let fin = apply_update(&base, &u);
+            let o = run_update(&base, &u, 30.0);
+            emit_x(&mut sink, &fin, &o, &mut stats, Some((&base, &u)));
         }
         let mut rng2 = Rng::new(seed ^ 0x5eed);
         synth(&mut sink, &mut rng2, if thorough { 12000 } else { 2400 }, &mut stats);
